@@ -17,6 +17,9 @@ CHECKS = {
  'C14': dict(cat='model_checking', design='5/C14', technique='TLA+ spec of RFC 6901 (tokenizer state machine, printer, evaluation, edit operations, flatten); TLC checks parse/print round trips in the model and enumerates cases with predicted outcomes, replayed through the jsonpointer API',
    text='TLC enumerates every pointer string over a 7-character alphabet (tokenizer verdict, tokens, printed form) and every (document, token sequence, operation, create_if_missing) tuple over a bounded universe with the predicted outcome and resulting document; the harness replays them through the string and json_pointer APIs for json and ojson and requires a failed operation to leave the document unchanged. Flatten/unflatten are checked on documents with escape-needing keys.',
    note='Bounded-exhaustive over the stated universes. Edit-operation semantics beyond RFC 6901 come from the jsoncons reference documentation.'),
+ 'C15': dict(cat='model_checking', design='5/C15', technique='TLA+ spec of RFC 6902 as an atomic function plus an implementation-shaped undo-log machine; TLC proves refinement in bound, enumerates (document, patch) cases replayed through apply_patch, and validates recorded from_diff patches as traces',
+   text='TLC (1) model-checks that the undo-log machine transcribed from apply_patch/operation_unwinder refines the atomic RFC 6902 Apply for every (document, patch) in bound, (2) enumerates every such pair with the predicted outcome, replayed through both apply_patch overloads for json and ojson with the atomicity requirement on failure, and (3) validates every patch recorded from from_diff with the spec Apply (Trace_C15).',
+   note='Bounded: patches of up to 2 (3 in thorough) operations over 8 documents and the stated path/value sets; diff law over all pairs of a 119/150-document universe. Whole-document self-move excluded.'),
 }
 NA = {}
 
